@@ -13,8 +13,9 @@ import random, sys
 NAMES = [b'a', b'b', b'id', b'x', b'name']
 # names with multi-byte characters; the low byte of some code points is a syntax byte: 用 U+7528 '(' 天 U+5929 ')' 为 U+4E3A ':' 是 U+662F '/' 个 U+4E2A '*' Ž U+017D '}' ŻU+017B '{'
 UNAMES = ['用户'.encode(), '天'.encode(), 'Ž'.encode(), 'naïve'.encode(), '个'.encode(), '是'.encode(), '为'.encode(), 'Ż'.encode(), 'ü'.encode()]
-CONS = [b'lower', b'even', b'noa', b'u8']
+CONS = [b'lower', b'even', b'noa', b'u8', 'größe'.encode()]
 UNREG = b'zzz'
+UNREGS = [b'zzz', b'zzz', 'zählé'.encode(), '数'.encode()]
 STATICS = [b'a', b'b', b'ab', b'abc', b'.', b'-', b'm', b'x', b'y', b'.txt', 'é'.encode(), 'è'.encode(),
            '日'.encode(), '月'.encode(), b'\\(', b'\\{', b'\\\\', b'v1', b'a.b', b' ', b'\\}', b'a\\}', b'\\)', b'x\\)']
 VALUES = [b'a', b'b', b'ab', b'abc', b'x1', b'12', b'255', b'256', 'é'.encode(), b'a.b', b'a-b', b'm', b'aa',
@@ -50,7 +51,7 @@ class G:
         kind = 'w' if allow_wild and r.random() < 0.3 else 'd'
         c = None
         if r.random() < 0.35:
-            c = UNREG if r.random() < unreg else r.choice(CONS)
+            c = r.choice(UNREGS) if r.random() < unreg else r.choice(CONS)
         return (kind, n, c)
 
     def segment(self, used, vocab):
@@ -157,7 +158,8 @@ class G:
             if c == b'even' and len(v) % 2 == 0: return v
             if c == b'noa' and not v.endswith(b'a'): return v
             if c == b'u8' and v in (b'12', b'255', b'+7', b'007'): return v
-            if c == UNREG: return v
+            if c == 'größe'.encode() and len(v) % 2 == 1: return v
+            if c in UNREGS: return v
         return v
 
     def instantiate(self, flat):
@@ -423,7 +425,7 @@ def history(g, rid=0, emphasis=None):
     L = []
     a = str(rid)
     L.append('new ' + a)
-    regs = [c for c in [r.choice(['lower', 'lower', 'lower', 'lower2']), 'even', 'noa'] if r.random() < 0.8]
+    regs = [c for c in [r.choice(['lower', 'lower', 'lower', 'lower2']), 'even', 'noa'] if r.random() < 0.8] + (['uni'] if r.random() < 0.5 else [])
     for c in regs:
         L.append('cons %s %s' % (a, c))
     if r.random() < 0.15:
